@@ -14,9 +14,9 @@ Subset (after `ResourceDef::parse`, `actix-router/src/resource.rs:971`):
   (`static_match` for static patterns, the appended `(/|$)` for dynamic ones); full patterns
   must consume the whole path (`$`).
 
-The matcher is greedy without backtracking; that coincides with the regex semantics when every
-`{name}` is followed by `/` or the end of the pattern and every `{name:\d+}` by a non-digit — the
-only shapes the generator produces.
+Literal text may contain regex metacharacters (`.`, `+`, `(`, `)`, `$`): `ResourceDef::parse`
+escapes it, so it is compared literally.  Dynamic segments are greedy with backtracking
+(leftmost-first), which is the regex semantics for these shapes (`/{name}.json`, `/{a}-{b}`).
 
 Also here: `ensureLeadingSlash` (`actix-web/src/dev.rs:30`, `actix-router/src/resource.rs:1108`
 `insert_slash`) and a `requote` for ASCII input (`actix-router/src/quoter.rs:62` with the
@@ -88,44 +88,46 @@ def stripPrefix : Chars → Chars → Option Chars
   | _ :: _, [] => none
   | a :: l, b :: s => if a == b then stripPrefix l s else none
 
-/-- match the segment list against `s`, `pos` = offset of `s` in the unprocessed path -/
-def matchSegs : List Seg → Chars → Nat → Option (Nat × List Cap)
-  | [], _, pos => some (pos, [])
-  | .lit l :: more, s, pos =>
-    match stripPrefix l s with
-    | some s' => matchSegs more s' (pos + l.length)
-    | none => none
-  | .var n :: more, s, pos =>
-    let v := s.takeWhile (· != '/')
-    if v.isEmpty then none
-    else
-      match matchSegs more (s.drop v.length) (pos + v.length) with
-      | some (e, caps) => some (e, (n, pos, pos + v.length) :: caps)
-      | none => none
-  | .digits n :: more, s, pos =>
-    let v := s.takeWhile isDigit
-    if v.isEmpty then none
-    else
-      match matchSegs more (s.drop v.length) (pos + v.length) with
-      | some (e, caps) => some (e, (n, pos, pos + v.length) :: caps)
-      | none => none
-  | .rest n :: _, s, pos => some (pos + s.length, [(n, pos, pos + s.length)])
+/-- the end condition appended to the pattern: `$` for full patterns, `(/|$)` for prefix patterns -/
+def endOk (isPrefix : Bool) (s : Chars) : Bool :=
+  match s with
+  | [] => true
+  | c :: _ => isPrefix && c == '/'
 
-def hasRest : List Seg → Bool
-  | [] => false
-  | .rest _ :: _ => true
-  | _ :: more => hasRest more
+/-- leftmost-first, greedy: the first `k` among `n, n-1, …, 1` for which `f k` succeeds -/
+def firstDown {α : Type} (f : Nat → Option α) : Nat → Option α
+  | 0 => none
+  | k + 1 =>
+    match f (k + 1) with
+    | some r => some r
+    | none => firstDown f k
+
+/-- Match the segment list against `s` (`pos` = offset of `s` in the unprocessed path), then the
+end condition.  Dynamic segments are greedy with backtracking, as in the regex the pattern is
+compiled to: a `{name}` first tries the whole run of non-`/` characters and gives characters back
+one at a time until the rest of the pattern (literal text, further segments, end condition)
+matches. -/
+def matchSegs : List Seg → Bool → Chars → Nat → Option (Nat × List Cap)
+  | [], isPrefix, s, pos => if endOk isPrefix s then some (pos, []) else none
+  | .lit l :: more, isPrefix, s, pos =>
+    match stripPrefix l s with
+    | some s' => matchSegs more isPrefix s' (pos + l.length)
+    | none => none
+  | .var n :: more, isPrefix, s, pos =>
+    firstDown (fun k =>
+      match matchSegs more isPrefix (s.drop k) (pos + k) with
+      | some (e, caps) => some (e, (n, pos, pos + k) :: caps)
+      | none => none) (s.takeWhile (· != '/')).length
+  | .digits n :: more, isPrefix, s, pos =>
+    firstDown (fun k =>
+      match matchSegs more isPrefix (s.drop k) (pos + k) with
+      | some (e, caps) => some (e, (n, pos, pos + k) :: caps)
+      | none => none) (s.takeWhile isDigit).length
+  | .rest n :: _, _, s, pos => some (pos + s.length, [(n, pos, pos + s.length)])
 
 /-- one pattern: segments, then the end condition (`$`, `(/|$)`, or none after a tail) -/
 def matchOne (segs : List Seg) (isPrefix : Bool) (s : Chars) : Option (Nat × List Cap) :=
-  match matchSegs segs s 0 with
-  | none => none
-  | some (len, caps) =>
-    if hasRest segs then some (len, caps)
-    else
-      match s.drop len with
-      | [] => some (len, caps)
-      | c :: _ => if isPrefix && c == '/' then some (len, caps) else none
+  matchSegs segs isPrefix s 0
 
 /-- `Patterns::List` → `DynamicSet`: the first pattern that matches -/
 def miniMatch : Matcher MiniPat
